@@ -17,7 +17,7 @@ META = {
              "counts >= 4 or a repeated block with >= 2 relation leaves"),
     "assumptions": ["reference model qv/model.py (unroll = n copies, copy k+1 FOLLOWED_BY the latest-ending relation leaf before it)"],
     "floors": {
-        "quick": {"unrolled_programs": 3000, "late_repetition_settings": 600, "unrolled_reread_after_registry_change": 800, "apply_modifiers_post": 3000, "idempotence_checks": 3000, "library_concatenation_checks": 40,
+        "quick": {"unrolled_programs": 3000, "late_repetition_settings": 600, "registry_counts_changed_after_unrolling": 1200, "unrolled_reread_after_registry_change": 800, "apply_modifiers_post": 3000, "idempotence_checks": 3000, "library_concatenation_checks": 40,
                   "identity_outside_blocks": 5000, "time_triples_compared": 50000, "eq_multi": 20000},
         "thorough": {"unrolled_programs": 30000, "apply_modifiers_post": 30000, "library_concatenation_checks": 300},
     },
@@ -45,6 +45,11 @@ def gen_case(rng: random.Random, cls: str) -> Dict[str, Any]:
         # registry-provided counts that are set / changed AFTER the blocks were nested and before the modifiers are applied
         prog["settings"]["reps_late"] = {k: rng.choice([1, 2, 3, 4]) for k in gen.REP_KEYS if rng.random() < 0.8}
     return prog
+
+
+def i_case_changes_registry(prog: Dict[str, Any]) -> bool:
+    """Every second program (by structural hash) changes the repetition registry between the two applications."""
+    return int(bp.phash(prog)[:2], 16) % 2 == 0
 
 
 def reps_product(circ: Dict[str, Any], S: M.Settings, acc=1) -> int:
@@ -132,9 +137,19 @@ def check_program(prog: Dict[str, Any], acc: Acc, flags=None):
                 sig = "stale-memo/unrolled-duration" if abs(shadow_d - want_d) <= TOL else "unroll/duration"
                 acc.finding(sig, "duration of the unrolled circuit differs from the model (n back-to-back copies)", case,
                             {"library": got_d, "model": want_d, "memo_free": shadow_d})
-        # ---- idempotence
+        # ---- idempotence - also when the repetition registry changes in between: the counts were applied once and reset, a
+        #      registry value set afterwards has nothing left to act on
         before_ids = [id(o) for o in ops]
         before_t = snap.raw_times(ops)
+        if i_case_changes_registry(prog):
+            for k2 in gen.REP_KEYS:
+                ctx.repetition_registry.set_registry_at(k2, 3)
+            acc.count("registry_counts_changed_after_unrolling")
+            for comp in [modified.circuit_structure] + list(modified.composite_operations):
+                if comp.nr_of_repetitions != 1:
+                    acc.finding("repetition-count-left", "a sub-circuit reports a repetition count again after the registry changed (counts were not reset to fixed 1)", case,
+                                {"n": comp.nr_of_repetitions})
+                    break
         again = modified.apply_modifiers()
         ops2 = again.operations
         acc.count("idempotence_checks")
